@@ -62,6 +62,10 @@ def run(ctx):
                     cov["distinct_nontrivial"] = cov.get("distinct_nontrivial", 0) + st["distinct_nontrivial"]
                     cov["traces_validated_against_impl"] = cov.get("traces_validated_against_impl", 0) + st["traces_validated_against_impl"]
                     cov["race_detector"] = "go build -race (cgo) of harness/cmd/hC11; every race case runs in its own subprocess"
+    if not ctx.quick() and not ctx.replay and model_ok and not ctx.brokens:
+        ck = ctx.coqchk()
+        if ck:
+            cov.update(ck)
     cov["trusted_base_extra"] = [
         "extraction: ExtrOcamlBasic only; OCaml driver ocaml/C11/main.ml + ocaml/common/conv.ml",
         "correspondence harness harness/cmd/hC11 + harness/internal/a20 (recording gun factory under the real engine; real scenario "
